@@ -32,12 +32,12 @@ func (g *wsconcG) wlen() int {
 		return g.r.pick(300, 1000, 1001)
 	case 4:
 		if g.raw && g.max > 100000 {
-			return g.r.pick(65535, 65536, 70000)
+			return g.r.pick(65535, 65536, 13000, 7000)
 		}
 		return 5
 	case 5, 6:
 		if g.raw && g.max > 100000 {
-			return g.r.pick(7000, 20000, 40000, 100000)
+			return g.r.pick(7000, 13000, 20000, 40000)
 		}
 		return 17
 	case 7:
@@ -210,7 +210,7 @@ func wsconcEnum(args []string, w *bufio.Writer) {
 			case 1:
 				fmt.Fprintf(w, "! write %d 1 5\n", id)
 			case 2:
-				fmt.Fprintf(w, "! write %d 2 20000\n", id)
+				fmt.Fprintf(w, "! write %d 2 13000\n", id)
 			case 3:
 				fmt.Fprintf(w, "! peer 1 0 9 0 aa\n")
 			case 4:
